@@ -7,6 +7,16 @@ import os
 HERE = os.path.dirname(os.path.dirname(os.path.abspath(__file__)))
 
 CHECKS = {
+    "C01": dict(
+        level="exploration",
+        technique="property-based testing (Hypothesis) of op-list histories over a simulated process table with ghost incarnation ids; delivery-log oracle; live differential on real children",
+        text=("Generated histories of spawn/exit/reap/PID recycling (live or zombie, repeated), object creation (incl. the Popen path), interleaved queries and every signal / setter "
+              "form are interpreted against the real psutil code over a simulated kernel that logs each delivered signal and setting with the incarnation that received it; after each "
+              "action: a recycled or gone object must raise NoSuchProcess with nothing delivered, a live one gets exactly one delivery with exactly the requested value, and no kill() "
+              "with pid <= 0 ever occurs. A live tier kills real children with 16 signals. Search, not proof."),
+        note=("Trusted: vlib/simk.py syscall model and delivery log, vlib/history.py. Reuse within one clock tick is documented as indistinguishable and not generated; what cpu_affinity([]) selects is left to C18."),
+        design="DESIGN.md section 3 C01",
+    ),
     "C03": dict(
         level="fault_enumeration",
         technique="fault-point enumeration over Hypothesis-generated process states: vanish / zombify / deny injected at every OS access index of every query method on a simulated procfs",
